@@ -123,6 +123,9 @@ type Interp struct {
 	choiceLog     []int
 	mapRot        int
 	pathViolated  bool
+	isolver       *Solver
+	bounds        *boundsInfo
+	intQueries    int
 	mapRotK       int
 	curSite       string
 
@@ -156,6 +159,7 @@ type JobConfig struct {
 	UnwindBound int
 	ShuffleSwaps int
 	EagerAsserts bool
+	NoIntMode    bool
 	NoModelDecide bool
 	SampleEvery  int
 	MaxSamples   int
@@ -254,7 +258,7 @@ func (in *Interp) feasible(cond *Term) bool {
 		in.Stats.CacheHits++
 		return v != Unsat
 	}
-	v, _ := in.solver.Check(in.pc, []*Term{cond}, nil)
+	v, _ := in.pickSolver(cond).Check(in.pc, []*Term{cond}, nil)
 	if debugQ {
 		in.qSites[in.curSite]++
 	}
@@ -281,7 +285,7 @@ func (in *Interp) feasibleM(cond *Term) bool {
 		return v != Unsat
 	}
 	vars := in.pathVars()
-	v, vals := in.solver.Check(in.pc, []*Term{cond}, vars)
+	v, vals := in.pickSolver(cond).Check(in.pc, []*Term{cond}, vars)
 	if debugQ {
 		in.qSites[in.curSite]++
 	}
@@ -419,7 +423,7 @@ func (in *Interp) concretize(t *Term, lo, hi int, what string) int {
 }
 
 func (in *Interp) getModel(extra ...*Term) map[string]uint64 {
-	v, vals := in.solver.Check(in.pc, extra, in.inputs)
+	v, vals := in.pickSolver(extra...).Check(in.pc, extra, in.inputs)
 	if v != Sat {
 		return nil
 	}
@@ -1070,17 +1074,36 @@ func (in *Interp) divrem(x, y *Term, signed, wantQuot bool) *Term {
 		r := ts.Var(fmt.Sprintf("div!r%d", in.divSeq), 64)
 		zero := ts.BV(0, 64)
 		var def *Term
+		// bounds of x known from the path condition tighten the quotient's range (and make the
+		// definition overflow-free, hence eligible for integer mode)
+		xi := ival{ok: false}
+		if !in.cfg.NoIntMode {
+			xi = in.interval(in.mineBounds(), x)
+		}
 		if signed {
 			d := y.SVal()
 			qlo := ts.BV(uint64(math.MinInt64/d), 64)
 			qhi := ts.BV(uint64(math.MaxInt64/d), 64)
-			neg := ts.SLT(x, zero)
-			rng := ts.Ite(neg,
-				ts.And(ts.SLT(ts.Neg(y), r), ts.SLE(r, zero)),
-				ts.And(ts.SLE(zero, r), ts.SLT(r, y)))
+			if xi.ok && small(xi) {
+				qlo = ts.BV(uint64(xi.lo/d), 64)
+				qhi = ts.BV(uint64(xi.hi/d), 64)
+			}
+			var rng *Term
+			switch {
+			case xi.ok && xi.lo >= 0:
+				rng = ts.And(ts.SLE(zero, r), ts.SLT(r, y))
+			case xi.ok && xi.hi <= 0:
+				rng = ts.And(ts.SLT(ts.Neg(y), r), ts.SLE(r, zero))
+			default:
+				neg := ts.SLT(x, zero)
+				rng = ts.And(ts.And(ts.SLT(ts.Neg(y), r), ts.SLT(r, y)), ts.Ite(neg, ts.SLE(r, zero), ts.SLE(zero, r)))
+			}
 			def = ts.AndAll(ts.SLE(qlo, q), ts.SLE(q, qhi), rng, ts.Eq(x, ts.Add(ts.Mul(q, y), r)))
 		} else {
 			qhi := ts.BV(^uint64(0)/y.C, 64)
+			if xi.ok && small(xi) && xi.lo >= 0 {
+				qhi = ts.BV(uint64(xi.hi)/y.C, 64)
+			}
 			def = ts.AndAll(ts.ULE(q, qhi), ts.ULT(r, y), ts.Eq(x, ts.Add(ts.Mul(q, y), r)))
 		}
 		in.pushPC(def)
